@@ -2,7 +2,8 @@
 # check_seeded.sh [ids...] : for every kept seeded change, apply it to /repo, run the quick checks its meta.json
 # lists under caught_by_quick_checks, undo it, and report whether each still raises a VIOLATION.
 # A patch that no longer applies cleanly is re-based with `git apply --3way` (the stored patch.diff is rewritten
-# when that works). /repo must be clean before and is clean afterwards.
+# when that works). /repo must be clean before and is clean afterwards. TRIAL_TARGET=<dir> builds into a separate
+# target directory and runs the binary from there (the regular harness/target is then left alone).
 cd /verif || exit 2
 [ -z "$(git -C /repo status --porcelain)" ] || { echo "/repo is not clean"; exit 2; }
 ids=${@:-$(ls seeded)}
@@ -21,12 +22,17 @@ for id in $ids; do
   git -C /repo apply $d/patch.diff
   caught=""; missed=""
   for p in $(jq -r '.caught_by_quick_checks[]' $d/meta.json); do
-    out=$(./check $p --tier quick 2>&1); rc=$?
+    if [ -n "$TRIAL_TARGET" ]; then
+      (cd /verif/harness && CARGO_TARGET_DIR=$TRIAL_TARGET cargo build --release --offline >/dev/null 2>&1) || { missed="$missed $p(build)"; continue; }
+      out=$($TRIAL_TARGET/release/swiftmt-check $p --tier quick 2>&1); rc=$?
+    else
+      out=$(./check $p --tier quick 2>&1); rc=$?
+    fi
     if [ $rc -eq 1 ] && echo "$out" | grep -q '^VIOLATION'; then caught="$caught $p"; else missed="$missed $p(rc=$rc)"; fi
   done
   git -C /repo checkout -- .
   if [ -n "$missed" ]; then echo "$id: MISSED by$missed (caught by:$caught)"; fail=1; else echo "$id: caught by$caught"; fi
 done
 # leave the harness built against the clean tree
-(cd /verif/harness && cargo build --release --offline >/dev/null 2>&1)
+if [ -z "$TRIAL_TARGET" ]; then (cd /verif/harness && cargo build --release --offline >/dev/null 2>&1); fi
 exit $fail
